@@ -69,12 +69,26 @@ CHECKS = {
                      'NeverFails); leaves of parse() against PurePrefix/SplitPrefix*.',
                 note='TLC; recorder. The binding is demonstrated on every run (five corrupted traces must be rejected).',
                 ref='2.1, 3 C09'),
+    'C10': dict(level='exploration', tech='TLA+ relation TokenAgreement (spec Relational) evaluated by TLC on (CPython V tokenize, parso tokenize) pairs; programs from corpus, mutations and ParserB sentences',
+                text='For programs interpreter V compiles and tokenizes without ERRORTOKEN (stdlib chunks of V, their token-level '
+                     'mutations, rendered grammar sentences from ParserB) the significant-token projection of CPython\'s stream '
+                     'must equal the merged projection of parso\'s (type class, exact text, line/column; f-strings as one string '
+                     'located by its start; INDENT at CPython\'s end; closing DEDENTs and ENDMARKER by type). The projections and '
+                     'the comparison are written in TLA+; the explored set is sampled, hence exploration.',
+                note='CPython interpreters 3.6-3.13 (3.14 judged by 3.13); programs with a bare \\r are skipped (readline-based '
+                     'reference).', ref='2.10, 3 C10'),
     'C11': dict(level=MC, tech='TLA+ A-spec Tree (navigation and LeafForPosition clauses) + TLC trace validation',
                 text='For every node of real trees the results of parent, get_root_node, first/last leaf, next/previous leaf, '
                      'next/previous sibling and search_ancestor, and for every (line, col) of the text the result of '
                      'get_leaf_for_position (both include_prefixes values; ValueError outside the file) are compared by TLC with '
                      'the definitions derived from child lists and leaf order.',
                 note='TLC; recorder; positions sampled above 160 (quick) / 400 (thorough) per text.', ref='2.4, 3 C11'),
+    'C12': dict(level='exploration', tech='TLA+ generator SemCtx (context stacks x statement templates, TLC-enumerated) + relation NoFalseErrors (spec Relational) evaluated by TLC; oracle = compile() of CPython V and 3.8',
+                text='Every (context stack <= 2/3 frames, statement) pair of SemCtx rendered from templates, stdlib chunks, mutations '
+                     'and ParserB sentences, each kept iff interpreter V compiles it: (a) if 3.8 compiles it too, parso must produce no '
+                     'error node and no issue; (b) without error nodes there must be no issue. Eleven genuine false positives found '
+                     'this way are listed as known findings keyed by message / shape.',
+                note='CPython interpreters as oracle; message-keyed known findings (identifier names normalised).', ref='2.10, 3 C12'),
     'C13': dict(level=MC, tech='TLA+ A-spec Issues (kind errors) evaluated by TLC on recorded iter_errors() results paired with the serialised tree',
                 text='For every text (standard set + ParserB sentences-with-errors and arbitrary token streams) iter_errors is called '
                      'twice on the real tree; TLC checks: no exception, tree dump unchanged, both lists equal, codes 901/903 with '
